@@ -610,7 +610,9 @@ func c14SessionHistoryDirs(ops []string, debugLevel bool, cs core.Case, subdirs 
 // ---- sessions with unrestricted IO (the command line's default): explicit saves to other files and directories between
 // the updates. Run in a child process (the IO configuration is per process).
 
-var c14UnrestrictedOps = []string{"save(\"bk/.gr\")", "save(\"./.gr\")", "save(\"other.gr\")", "save()", "load(\"bk/.gr\")", "cnt = cnt + 1", "inc()", "m.k = 7", "cnt"}
+var c14UnrestrictedOps = []string{"save(\"bk/.gr\")", "save(\"./.gr\")", "save(\"other.gr\")", "save()", "load(\"bk/.gr\")", "cnt = cnt + 1", "inc()", "m.k = 7", "cnt",
+	// an update and an explicit save in one session (the end-of-session save still has to happen)
+	"cnt = cnt + 1; save(\"bk/.gr\")", "inc(); save(\"./.gr\")", "m.k = 8; save(\"other.gr\")", "save(\"bk/.gr\"); cnt = cnt + 5", "x = x + 1; save(\"bk/.gr\"); load(\"bk/.gr\")"}
 
 func c14Child(args []string) int {
 	n := 0
